@@ -314,7 +314,12 @@ class _CommonVisitors(visitor.NodeVisitor):
         typing.typecheck(substr, ast.String, "substring")
 
         identifier = self.visit(field)
-        substring = self.visit(substr)
         op = getattr(identifier, func)
 
+        if isinstance(substr, ast.String) and any(c in substr.val for c in "%_/"):
+            # '%' and '_' are wildcards in the LIKE pattern SQLAlchemy builds,
+            # a literal one needs escaping:
+            return op(substr.val, autoescape=True)
+
+        substring = self.visit(substr)
         return op(substring)
